@@ -18,9 +18,9 @@ def q(*xs):
     return {'"%s"' % x for x in xs}
 
 
-def mc_consts(keys=("a1", "b1"), times=(0, 1), w=3, batch=1, snap=1, comp=0, dele=0, crash=2, dev=()):
+def mc_consts(keys=("a1", "b1"), times=(0, 1), w=3, batch=1, snap=1, comp=0, dele=0, crash=2, dev=(), roll=0):
     return {"Keys": q(*keys), "Times": set(times), "MaxWrites": w, "MaxBatch": batch, "MaxSnap": snap,
-            "MaxCompact": comp, "MaxDelete": dele, "MaxCrash": crash, "Dev": q(*dev)}
+            "MaxCompact": comp, "MaxDelete": dele, "MaxCrash": crash, "Dev": q(*dev), "MaxRoll": roll}
 
 
 def mc(ctx, sd, name, consts, invs, timeout=1500, workers=8):
@@ -64,9 +64,9 @@ def negative_control(ctx, sd, name, consts, inv):
 ALL_CRASH = ("idle", "write", "snapshot", "compact", "delete", "restart")
 
 
-def gen_consts(acts, w=6, batch=2, snap=3, comp=2, dele=2, crash=3, genlen=12, dev=("F14",), crash_in=ALL_CRASH):
-    return {"Keys": q("a1", "a2", "b1"), "Times": {0, 1, 2}, "MaxWrites": w, "MaxBatch": batch, "MaxSnap": snap,
-            "MaxCompact": comp, "MaxDelete": dele, "MaxCrash": crash, "Dev": q(*dev), "GenLen": genlen,
+def gen_consts(acts, w=6, batch=2, snap=3, comp=2, dele=2, crash=3, genlen=12, dev=("F14",), crash_in=ALL_CRASH, roll=2, keys=("a1", "a2", "b1"), times=(0, 1, 2)):
+    return {"Keys": q(*keys), "Times": set(times), "MaxWrites": w, "MaxBatch": batch, "MaxSnap": snap,
+            "MaxCompact": comp, "MaxDelete": dele, "MaxCrash": crash, "Dev": q(*dev), "MaxRoll": roll, "GenLen": genlen,
             "Acts": q(*acts), "CrashIn": q(*crash_in)}
 
 
@@ -147,7 +147,9 @@ def known_behaviours(ctx):
     out = []
     for p in sorted(glob.glob(os.path.join(os.path.dirname(os.path.dirname(os.path.abspath(__file__))), "replays", ctx.prop, "*.json"))):
         if os.path.basename(p).startswith(("known-", "fixed-", "regress-")):      # recorded findings, repaired ones, regression histories
-            out.append(json.load(open(p))["replay"]["behaviour"])
+            rp = json.load(open(p))["replay"]
+            if "behaviour" in rp:                       # (scenario replays have none: TestVerifTSMEngineScenarios runs anyway)
+                out.append(rp["behaviour"])
     return out
 
 
@@ -223,3 +225,57 @@ def generate_shared_bound(ctx, sd, name, consts, num, keep, need, have=0):
     sel, _ = generate_with(ctx, sd, name, consts, num, lambda b: shared_bound_pairs(b) >= 1, need,
                            "two deletes sharing exactly one bound on file data", keep_matching=keep, variants=6, have=have)
     return sel
+
+
+def has_remove_hook(ctx):
+    """patches/C01/05-hook: event after each file WAL.Remove unlinks (crash point between the removals)"""
+    return "wal.remove.file" in open(os.path.join(ctx.repo, "tsdb/engine/tsm1/wal.go")).read()
+
+
+def multi_segment_overwrites(b):
+    """Number of snapshot steps (or crashes inside a snapshot) taken while >= 2 WAL segments hold data and a point written
+    in an older segment is overwritten or deleted by an entry of a newer one."""
+    n = 0
+    segs = [dict()]                      # per segment: point -> last op
+    for st in b:
+        a = st["a"]
+        if a == "write":
+            for p in st["pts"]:
+                segs[-1][(p["k"], p["t"])] = "w"
+        elif a == "delete":
+            for k in ("a1", "a2", "b1"):
+                if k[0] in st["sel"]:
+                    for t in range(st["lo"], st["hi"] + 1):
+                        segs[-1][(k, t)] = "d"
+        elif a == "walroll":
+            if segs[-1]:
+                segs.append(dict())
+        elif a in ("snapshot", "snapbegin") or (a == "crash" and st.get("in") == "snapshot"):
+            full = [x for x in segs if x]
+            if len(full) >= 2 and any(p in full[j] for i in range(len(full)) for j in range(i + 1, len(full)) for p, op in full[i].items() if op == "w"):
+                n += 1
+            segs = [dict()]
+        elif a in ("crash", "restart", "restartcrash", "reopen"):
+            # conservative: what is in which segment after a restart is not tracked here
+            segs = [dict()] if a != "crash" else segs
+    return n
+
+
+def scenarios(ctx):
+    """hand-written crash histories for crash points without a hook (harness TestVerifTSMEngineScenarios)"""
+    def run_sc(label):
+        fast = None
+        env = {}
+        if os.path.isdir("/dev/shm") and os.access("/dev/shm", os.W_OK):
+            fast = tempfile.mkdtemp(prefix="verif-%s-" % ctx.prop, dir="/dev/shm")
+            env["VERIF_FAST_SCRATCH"] = fast
+        try:
+            return ctx.go_test(PKG, FILES, "^TestVerifTSMEngineScenarios$", env=env, timeout=600, label=label)
+        finally:
+            if fast:
+                shutil.rmtree(fast, ignore_errors=True)
+    recs, out, rc = run_sc("scenarios")
+    def confirm(rp):
+        r2, o2, c2 = run_sc("scenarios-confirm")
+        return any(r.get("k") == "mismatch" for r in r2)
+    return ctx.process(recs, out, rc, "TestVerifTSMEngineScenarios", confirm)
